@@ -57,6 +57,11 @@ func targetDuration(segments []muxerSegment) int {
 		}
 	}
 
+	// EXT-X-TARGETDURATION must be positive, otherwise playlist decoders consider it missing
+	if ret == 0 {
+		ret = 1
+	}
+
 	return ret
 }
 
